@@ -38,7 +38,7 @@ RULE = ("dag family: every G-DAG pipeline of N functions over roots {x,y} (0..2 
         "pipelines and 2-function pipelines over root x[i] (thorough: all 2-function G-MAP pipelines and the 3-function ones over root x[i] whose first "
         "function has no internal axis) x every S x every irredundant I (marker arrays for provided intermediates) x the deletions. Entry points: "
         "subpipeline(I,S) + one call per requested output; map(output_names=S) (auto_subpipeline=True iff I holds an intermediate); "
-        "map(auto_subpipeline=True) without output_names when S is the leaf set and every leaf lies below a provided name; subpipeline(I,S).map. "
+        "the same map request on a copy with every name in scope s and the inputs given per scope ({'s': {...}}); map(auto_subpipeline=True) without output_names when S is the leaf set and every leaf lies below a provided name; subpipeline(I,S).map. "
         "non-trivial = distinct (pipeline, S, I) that cuts at an intermediate, leaves a function out, or must be rejected")
 ASSUMPTIONS = ["selection reference = backward reachability cut by provided names (this module, ~40 lines); values from vmc/gen_dag.py:ref_eval and "
                "vmc/gen_map.py:ref_map restricted to the selected functions",
@@ -372,6 +372,33 @@ def run_dag(case, p=None):  # noqa: C901, PLR0912, PLR0915
                 break
         else:
             cx.log(entry, want_names)
+
+    # ---- the same map request on a scoped copy, the inputs given per scope: {"s": {name: value}} -------
+    if cx.cls != "free":
+        terms.LOG.clear()
+        try:
+            p2 = p.copy()
+            _quiet(p2.update_scope, "s", inputs="*", outputs="*")
+        except Exception:  # noqa: BLE001  (what update_scope does is C10's business)
+            p2 = None
+        if p2 is not None:
+            def sc(x):
+                return tuple("s." + y for y in x) if isinstance(x, tuple) else "s." + x
+            try:
+                r = _quiet(p2.map, {"s": dict(vals)} if vals else {}, parallel=False, storage="dict", output_names={sc(x) for x in s_objs},
+                           auto_subpipeline=any(n in prod for n in given))
+            except Exception as e:  # noqa: BLE001
+                cx.raised("map-scoped-nested-inputs", e, cx.cls, front)
+            else:
+                if cx.answered("map-scoped-nested-inputs", cx.cls):
+                    for n in names:
+                        want = gen_dag.ref_eval(spec, n, vals).value
+                        if "s." + n not in r or r["s." + n].output != want:
+                            cx.add({"kind": "value-mismatch" if "s." + n in r else "output-missing"},
+                                   f"map-scoped-nested-inputs: {cx.where()}: s.{n} = {r['s.' + n].output if 's.' + n in r else None!r}, the full pipeline gives {want!r}")
+                            break
+                    else:
+                        cx.log("map-scoped-nested-inputs", want_names)
     return cx
 
 
